@@ -254,99 +254,31 @@ theorem strip_esc {ws : Char → Bool} (h : WsOk ws) (s : Str) :
     strip ws (esc s) = esc (strip ws s) := by
   unfold strip; rw [lstrip_esc h, rstrip_esc h]
 
-/-! ### unescape inverts esc (when the temporary character is absent) -/
+/-! ### unescape inverts esc -/
 
-theorem replace2_cons_ne {a b : Char} {r : Str} {x : Char} (t : Str) (h : x ≠ a) :
-    replace2 a b r (x :: t) = x :: replace2 a b r t := by
+theorem unescape_cons_ne {c : Char} (t : Str) (h : c ≠ escC) : unescape (c :: t) = c :: unescape t := by
   cases t with
-  | nil => simp [replace2]
-  | cons y rest => simp [replace2, h]
+  | nil => simp [unescape]
+  | cons d rest => simp [unescape, h]
 
-theorem replace2_cons_cons_ne {a b : Char} {r : Str} {x y : Char} (t : Str) (h : y ≠ b) (hya : y ≠ a) :
-    replace2 a b r (x :: y :: t) = x :: y :: replace2 a b r t := by
-  rw [replace2]
-  simp only [h, and_false, if_false]
-  rw [replace2_cons_ne _ hya]
+theorem unescape_pair (d : Char) (t : Str) (h : d = escC ∨ d = sep0 ∨ d = sep1) :
+    unescape (escC :: d :: t) = d :: unescape t := by
+  simp [unescape, h]
 
-theorem replace2_match {a b : Char} {r : Str} (t : Str) :
-    replace2 a b r (a :: b :: t) = r ++ replace2 a b r t := by
-  simp [replace2]
-
-/-- intermediate encoders after each pass of `unescape` -/
-def enc1 (c : Char) : Str :=
-  if c = escC then [tmpC] else if c = sep0 ∨ c = sep1 then [escC, c] else [c]
-def enc2 (c : Char) : Str :=
-  if c = escC then [tmpC] else if c = sep1 then [escC, c] else [c]
-def enc3 (c : Char) : Str :=
-  if c = escC then [tmpC] else [c]
-
-theorem pass1 (s : Str) : replace2 escC escC [tmpC] (esc s) = s.flatMap enc1 := by
+/-- for EVERY string (no character is reserved any more) -/
+theorem unescape_esc (s : Str) : unescape (esc s) = s := by
   induction s with
   | nil => rfl
   | cons c s ih =>
-    rw [esc_cons, List.flatMap_cons, ← ih]
-    unfold escChar enc1
-    by_cases h1 : c = escC
-    · subst h1; simp [replace2_match]
-    · by_cases h2 : c = sep0
-      · subst h2
-        simp only [h1, true_or, or_true, if_true, if_false, List.cons_append, List.nil_append]
-        rw [replace2_cons_cons_ne _ (by decide) (by decide)]
-      · by_cases h3 : c = sep1
-        · subst h3
-          simp only [h1, h2, or_true, if_true, if_false, List.cons_append, List.nil_append]
-          rw [replace2_cons_cons_ne _ (by decide) (by decide)]
-        · simp only [h1, h2, h3, or_self, if_false, List.cons_append, List.nil_append]
-          rw [replace2_cons_ne _ h1]
-
-theorem pass2 (s : Str) : replace2 escC sep0 [sep0] (s.flatMap enc1) = s.flatMap enc2 := by
-  induction s with
-  | nil => rfl
-  | cons c s ih =>
-    rw [List.flatMap_cons, List.flatMap_cons, ← ih]
-    unfold enc1 enc2
-    by_cases h1 : c = escC
-    · subst h1
-      simp only [if_true, List.cons_append, List.nil_append]
-      rw [replace2_cons_ne _ (by decide)]
-    · by_cases h2 : c = sep0
-      · subst h2; simp [replace2_match, escC, sep0, sep1]
-      · by_cases h3 : c = sep1
-        · subst h3
-          simp only [h1, h2, or_true, if_true, if_false, List.cons_append, List.nil_append]
-          rw [replace2_cons_cons_ne _ (by decide) (by decide)]
-        · simp only [h1, h2, h3, or_self, if_false, List.cons_append, List.nil_append]
-          rw [replace2_cons_ne _ h1]
-
-theorem pass3 (s : Str) : replace2 escC sep1 [sep1] (s.flatMap enc2) = s.flatMap enc3 := by
-  induction s with
-  | nil => rfl
-  | cons c s ih =>
-    rw [List.flatMap_cons, List.flatMap_cons, ← ih]
-    unfold enc2 enc3
-    by_cases h1 : c = escC
-    · subst h1
-      simp only [if_true, List.cons_append, List.nil_append]
-      rw [replace2_cons_ne _ (by decide)]
-    · by_cases h3 : c = sep1
-      · subst h3; simp [replace2_match, escC, sep1]
-      · simp only [h1, h3, if_false, List.cons_append, List.nil_append]
-        rw [replace2_cons_ne _ h1]
-
-theorem pass4 (s : Str) (h : tmpC ∉ s) : replace1 tmpC [escC] (s.flatMap enc3) = s := by
-  induction s with
-  | nil => rfl
-  | cons c s ih =>
-    have hc : c ≠ tmpC := fun e => h (by simp [e])
-    have hs : tmpC ∉ s := fun e => h (by simp [e])
-    rw [List.flatMap_cons, replace1_append, ih hs]
-    unfold enc3
-    by_cases h1 : c = escC
-    · subst h1; simp [replace1_cons, replace1_nil]
-    · simp [h1, replace1_cons, replace1_nil, hc]
-
-theorem unescape_esc (s : Str) (h : tmpC ∉ s) : unescape (esc s) = s := by
-  unfold unescape
-  rw [pass1, pass2, pass3, pass4 s h]
+    rw [esc_cons]
+    unfold escChar
+    split
+    · rename_i h
+      simp only [List.cons_append, List.nil_append]
+      rw [unescape_pair c _ h, ih]
+    · rename_i h
+      simp only [not_or] at h
+      simp only [List.cons_append, List.nil_append]
+      rw [unescape_cons_ne _ h.1, ih]
 
 end Rpft.Cell
